@@ -684,6 +684,12 @@ func (w *world) apply(a *Action, ds []*daemon) {
 					x.Err = "write: " + err.Error()
 					return
 				}
+				if a.Hold != "" {
+					// a client that has sent its request and then stops reading (until
+					// that hold is released): the handler's response does not drain
+					w.fault("client-stalls")
+					<-w.holdC(a.Hold)
+				}
 				resp, err := http.ReadResponse(bufio.NewReader(c), nil)
 				if err != nil {
 					x.Err = "read: " + err.Error()
